@@ -179,12 +179,46 @@ func fabricate(kind string, r *sim.Request) *sim.Fault {
 	panic(kind)
 }
 
+var c12RaceBeforeHook bool
+
+// c12DropGone: when the environment really removed an object that the controller does not recreate (it was
+// being released or deleted anyway), the fault-free run still has it; leave that object out of the comparison.
+func c12DropGone(got, want string, dev c12Dev) (string, string) {
+	if dev.Kind != "race:gone" {
+		return got, want
+	}
+	f := strings.Fields(dev.Ident) // "<verb> <resource> <ns>/<name> #n"
+	if len(f) < 3 {
+		return got, want
+	}
+	name := f[2][strings.LastIndex(f[2], "/")+1:]
+	marker := fmt.Sprintf(`"name":%q`, name)
+	has := func(s string) bool {
+		for _, l := range strings.Split(s, "\n") {
+			if strings.Contains(l, marker) {
+				return true
+			}
+		}
+		return false
+	}
+	if has(got) || !has(want) {
+		return got, want
+	}
+	var out []string
+	for _, l := range strings.Split(want, "\n") {
+		if !strings.Contains(l, marker) {
+			out = append(out, l)
+		}
+	}
+	return got, strings.Join(out, "\n")
+}
+
 var c12Kinds = []string{"404", "409", "410", "422", "500", "timeout", "lost-response"}
 
 func TestVerifC12(t *testing.T) {
 	r := mc.NewReport("C12", "composite")
 	defer r.Write()
-	r.DeclareClauses("no-panic", "error-and-requeue", "forget-on-success", "429-requeue-after", "sticky-others-reconciled", "sticky-status-attempted", "converges-like-fault-free")
+	r.DeclareClauses("no-panic", "error-and-requeue", "forget-on-success", "429-requeue-after", "sticky-others-reconciled", "sticky-status-attempted", "converges-like-fault-free", "benign-race-tolerated")
 	idx := 0
 	for _, scenario := range []string{"mixed", "rolling"} {
 		// fault-free reference
@@ -225,6 +259,7 @@ func TestVerifC12(t *testing.T) {
 					f = append(f, mc.Finding{Key: "C12:" + key, Msg: fmt.Sprintf("%+v: ", dev) + fmt.Sprintf(format, a...)})
 				}
 				x := c12Build(scenario)
+				c12RaceBeforeHook = false
 				if plan != nil {
 					x.Sim.Plan = plan(x)
 				}
@@ -256,6 +291,14 @@ func TestVerifC12(t *testing.T) {
 					r.Clause("error-and-requeue")
 					if !rate || forget {
 						bad("failure-not-retried:"+dev.Kind, "a non-benign failure must make the sync report an error and requeue with back-off (AddRateLimited=%v Forget=%v)", rate, forget)
+					}
+				case -2:
+					r.Clause("benign-race-tolerated")
+					if c12RaceBeforeHook && len(x.Hooks.Calls) == 0 {
+						bad("benign-race-aborts-sync:"+dev.Kind, "the target of a claim-phase request went away / changed just before the request (a documented benign race), and the sync stopped before calling the hook")
+					}
+					if rate {
+						bad("benign-race-reported-as-error:"+dev.Kind, "a documented benign race made the sync report an error (AddRateLimited)")
 					}
 				case -1:
 					r.Clause("forget-on-success")
@@ -307,7 +350,7 @@ func TestVerifC12(t *testing.T) {
 				r.Clause("converges-like-fault-free")
 				if _, ok := x.settle(); !ok {
 					bad("does-not-settle", "not quiescent 25 rounds after the fault")
-				} else if got := x.essence(); got != want {
+				} else if got, want := c12DropGone(x.essence(), want, dev); got != want {
 					bad("final-state-differs", "final state differs from the fault-free run:\n--- got\n%s\n--- want\n%s", got, want)
 				}
 				return f
@@ -336,6 +379,40 @@ func TestVerifC12(t *testing.T) {
 						return nil
 					}
 				}, nil, expect, 0)
+			}
+		}
+		// real benign races (not fabricated answers): the environment removes / edits the target of a child
+		// request just before it arrives, so the 404 / 409 is the server's own answer and the rest of the sync
+		// sees a consistent world. The documented benign races are tolerated: the sync goes on (the hook is
+		// still called when the race hit the claim phase), and the cluster converges as without the race.
+		for i, q := range log {
+			if !isChild(q) || !(q.Verb == "get" || q.Verb == "update" || q.Verb == "delete") {
+				continue
+			}
+			for _, kind := range []string{"race:gone", "race:edited"} {
+				if kind == "race:edited" && q.Verb != "update" {
+					continue
+				}
+				id, k, beforeHook := ids[i], kind, i < hookAt
+				run(c12Dev{Scenario: scenario, Kind: k, Ident: id}, func(x *c12World) func(*sim.Request) *sim.Fault {
+					seen := map[string]int{}
+					return func(g *sim.Request) *sim.Fault {
+						gid := g.Ident()
+						seen[gid]++
+						if fmt.Sprintf("%s#%d", gid, seen[gid]) == id {
+							if k == "race:gone" {
+								x.Sim.RemoveLocked(g.Kind, g.NS, g.Name)
+							} else {
+								x.Sim.EditLocked(g.Kind, g.NS, g.Name, func(o map[string]interface{}) { kit.Ann(o, "touched-by", "someone") })
+							}
+							g.Pre = x.Sim.GetLocked(g.Kind, g.NS, g.Name)
+							if beforeHook {
+								c12RaceBeforeHook = true
+							}
+						}
+						return nil
+					}
+				}, nil, -2, 0)
 			}
 		}
 		// pairs (thorough): two different requests of the same sync, same kind
